@@ -234,6 +234,54 @@ def buffers():
     os_ = strip_comments(read("PlatformSupport/XalanOutputStream.hpp"))
     wr.append(("XalanOutputStream", int(need(r"eDefaultBufferSize\s*=\s*(\d+)u?", os_, "eDefaultBufferSize").group(1))))
     d["writers"] = wr
+    # guarded store runs of the three writers: 'if (m_bufferRemaining < K | == 0 | < theLength) flushBuffer();' followed by
+    # the stores through m_bufferPosition up to the decrement of m_bufferRemaining
+    runs, len_runs = [], []
+    for cls in ("XalanUTF8Writer", "XalanUTF16Writer", "XalanOtherEncodingWriter"):
+        h = strip_comments(read("XMLSupport/%s.hpp" % cls))
+        fb = function_body(h, r"\bflushBuffer\s*\(\s*\)\s*\{", cls + "::flushBuffer")
+        need(r"m_bufferPosition\s*=\s*m_buffer\s*;", fb, cls + "::flushBuffer resets m_bufferPosition")
+        need(r"m_bufferRemaining\s*=\s*kBufferSize\s*;", fb, cls + "::flushBuffer resets m_bufferRemaining")
+        guard_rx = re.compile(r"if\s*\(\s*m_bufferRemaining\s*(<|==)\s*(\w+)\s*\)\s*\{\s*flushBuffer\s*\(\s*\)\s*;\s*\}")
+        dec_rx = re.compile(r"m_bufferRemaining\s*-=\s*(\w+)\s*;|m_bufferRemaining\s*=\s*m_bufferRemaining\s*-\s*size_type\s*\(\s*(\w+)\s*\)\s*;|--\s*m_bufferRemaining\s*;")
+        accounted = 0
+        for g in guard_rx.finditer(h):
+            dm = dec_rx.search(h, g.end())
+            if not dm:
+                raise AnchorError("%s: guard at offset %d has no decrement of m_bufferRemaining" % (cls, g.start()))
+            seg = h[g.end():dm.start()]
+            if guard_rx.search(seg):
+                raise AnchorError("%s: two guards before one decrement" % cls)
+            stores = len(re.findall(r"\*\s*m_bufferPosition\s*=[^=]", seg))
+            dec = dm.group(1) or dm.group(2) or "1"
+            op, k = g.group(1), g.group(2)
+            if op == "==":
+                if k != "0":
+                    raise AnchorError("%s: unexpected guard '== %s'" % (cls, k))
+                k = "1"          # remaining == 0  <=>  remaining < 1
+            if k.isdigit():
+                if not dec.isdigit() or "for" in re.findall(r"\b\w+\b", seg) or "copy" in re.findall(r"\b\w+\b", seg):
+                    raise AnchorError("%s: constant guard %s with a variable store run" % (cls, k))
+                runs.append((cls, int(k), stores, int(dec)))
+                accounted += stores
+            else:
+                # length-guarded run: one store per loop iteration (or std::copy of theLength units), decrement by the same length
+                loop = re.search(r"for\s*\(\s*size_type\s+i\s*=\s*0\s*;\s*i\s*<\s*%s\s*;\s*\+\+i\s*\)" % re.escape(k), seg)
+                cp = re.search(r"copy\s*\(\s*theString\.begin\s*\(\s*\)\s*,\s*theString\.end\s*\(\s*\)\s*,\s*m_bufferPosition\s*\)", seg)
+                if dec != k or not ((loop and stores == 1) or (cp and stores == 0)):
+                    raise AnchorError("%s: length-guarded run on %s not recognised" % (cls, k))
+                # the length must be bounded by the buffer: 'if (theLength > kBufferSize | sizeof(m_buffer))' writes directly
+                pre = h[max(0, g.start() - 400):g.start()]
+                if loop and not re.search(r"if\s*\(\s*%s\s*>\s*(?:kBufferSize|sizeof\s*\(\s*m_buffer\s*\))\s*\)" % re.escape(k), pre):
+                    raise AnchorError("%s: length-guarded copy loop without the 'longer than the buffer' test" % cls)
+                len_runs.append((cls, "loop" if loop else "numeric-character-reference"))
+                accounted += stores
+        total = len(re.findall(r"\*\s*m_bufferPosition\s*=[^=]", h))
+        if total != accounted:
+            raise AnchorError("%s: %d stores through m_bufferPosition, only %d inside recognised guarded runs" % (cls, total, accounted))
+    if len(runs) < 8:
+        raise AnchorError("writers: only %d constant-guarded store runs recognised" % len(runs))
+    d["runs"], d["len_runs"] = runs, len_runs
     ml = strip_comments(read("PlatformSupport/XalanMessageLoader.cpp"))
     d["msg"] = int(need(r"kMaxMessageLength\s*=\s*(\d+)\s*;", ml, "kMaxMessageLength").group(1))
     n_sb = len(re.findall(r"XalanDOMChar\s+sBuffer\s*\[\s*kMaxMessageLength\s*\+\s*1\s*\]\s*;", ml))
@@ -377,6 +425,11 @@ def gen_safe():
     o += "Definition conflicts_array : N := %d%%N.\n" % ca
     o += "Definition conflicts_use_vector (pattern_count size : N) : bool := %s pattern_count size.\n\n" % cmp_op(cop)
     o += "Definition writer_buffers : list (string * N) := [%s].\n" % "; ".join("(%s, %d%%N)" % (coq_str(n), k) for n, k in b["writers"])
+    o += "(* guarded store runs of the writers: (class, K of 'if (m_bufferRemaining < K) flushBuffer();' ['== 0' is K = 1],\n"
+    o += "   number of stores through m_bufferPosition that follow, decrement of m_bufferRemaining) *)\n"
+    o += "Definition writer_runs : list (string * N * N * N) := [%s].\n" % "; ".join("(%s, %d%%N, %d%%N, %d%%N)" % (coq_str(c), k, n, dd) for c, k, n, dd in b["runs"])
+    o += "(* runs guarded by their own length ('if (m_bufferRemaining < theLength) flushBuffer();' + theLength stores + '-= theLength') *)\n"
+    o += "Definition writer_length_runs : list (string * string) := [%s].\n" % "; ".join("(%s, %s)" % (coq_str(c), coq_str(w)) for c, w in b["len_runs"])
     o += "Definition max_message_length : N := %d%%N.\n\n" % b["msg"]
     o += "(* XPathProcessorImpl::tokenize, closing-quote scans: 'for(++i; i OP nChars && (c = pat[i]) != quote; ++i);'\n   the test in front of the read of pat[i], per quote character *)\n"
     o += "Definition quote_scan_tests : list (string * (N -> N -> bool)) := [%s].\n\n" % "; ".join("(%s, %s)" % (coq_str(q), cmp_op(op)) for op, q in b["scans"])
@@ -392,6 +445,7 @@ def gen_safe():
     facts = {"arrays": len(arrays), "calls": len(calls), "casts": len(casts), "catch_rows": len(rows),
              "atof": b["atof"], "alpha": b["alpha"], "conflicts": b["conf"], "dbl": b["dbl"], "ints": b["ints"],
              "sizes": sorted(set([s for _, s in b["dbl"]] + [s for _, s, _ in b["ints"]] + [size, bsz, ca, b["msg"]] + [k for _, k in b["writers"]])),
+             "writer_sizes": sorted(set(k for _, k in b["writers"])),
              "cast_list": casts}
     return o, facts
 
